@@ -56,7 +56,8 @@ VWMACol(cs, p) ==
      IF i - p + 1 < 1 THEN NoneV
      ELSE LET vol == SumR([k \in 1..p |-> cs[i - k + 1].v])
               pv  == SumR([k \in 1..p |-> Mul(cs[i - k + 1].c, cs[i - k + 1].v)])
-          IN IF IsZero(vol) THEN QV(Zero) ELSE QV(Div(pv, vol))]
+          IN IF IsZero(vol) THEN QV(Div(SumR([k \in 1..p |-> cs[i - k + 1].c]), R(p)))
+             ELSE QV(Div(pv, vol))]
 
 TRCol(cs) ==
   [i \in 1..Len(cs) |-> IF i < 2 THEN NoneV
